@@ -4,7 +4,7 @@ import sys
 import time
 import random
 
-from vlib import runner, peg, gens, sut, shrink
+from vlib import runner, peg, gens, sut, shrink, diff
 from vlib.runner import Check, Result, h64
 
 PER_GRAMMAR = 40
@@ -18,59 +18,12 @@ def nontrivial(ev):
     return bool(ev.get('fail_after_consume') or ev.get('alt_taken') or ev.get('rewind'))
 
 
-def eval_grammar(res, g, entries, inputs, tag, sample_every=0):
-    """Compile g once, compare every entry on every input with the reference."""
-    desc = peg.render(g)
-    mod, err = sut.compile_grammar(desc)
-    rd = g.ruledict()
-    if mod is None:
-        res.evals += 1
-        res.hist['compile_' + err[0]] += 1
-        res.mismatch({'g': peg.g_to_dict(g), 'entry': entries[0], 'text': inputs[0], 'why': 'compile'})
-        return
-    for name in entries:
-        fn = getattr(mod, name).parse
-        expr_key = None
-        for t in inputs:
-            it = peg.Interp(g, t)
-            try:
-                r = it.run_rule(name)
-            except peg.StepLimit:
-                res.hist['ref_steplimit'] += 1
-                continue
-            exp = sut.expected(r, t)
-            got = sut.run(mod, name, t, fn=fn)
-            res.evals += 1
-            res.hist['out_' + exp[0]] += 1
-            if nontrivial(it.events):
-                if expr_key is None:
-                    expr_key = peg.render_rule(rd[name], g.mode)
-                res.nontrivial.add(h64(tag, expr_key, t))
-                res.hist['nontrivial'] += 1
-                if len(res.samples) < 2 and len(t) >= 2:
-                    res.sample({'rule': expr_key, 'input': repr(t), 'outcome': list(exp)[:3],
-                                'events': dict(it.events)})
-            if not sut.agrees(exp, got):
-                sub = reachable_subgrammar(g, name)
-                res.mismatch({'g': peg.g_to_dict(sub), 'entry': name, 'text': t})
+def eval_grammar(res, g, entries, inputs, tag):
+    return diff.eval_grammar(res, g, entries, inputs, nontrivial, tag)
 
 
-def reachable_subgrammar(g, name):
-    rd = g.ruledict()
-    seen, todo = [], [name]
-    while todo:
-        n = todo.pop()
-        if n in seen or n not in rd:
-            continue
-        seen.append(n)
-        for e in peg.rule_exprs(rd[n]):
-            for x in peg.walk(e):
-                if x[0] == 'ref':
-                    todo.append(x[1])
-                if x[0] == 'call':
-                    todo.append(x[1])
-    rules = [r for r in g.rules if r[1] in seen]
-    return g.copy(rules=rules)
+reachable_subgrammar = diff.reachable_subgrammar
+wellformed = diff.wellformed
 
 
 class C01(Check):
@@ -98,10 +51,11 @@ class C01(Check):
             n = len(d1[mode])
             step = 24
             for lo in range(0, n, step):
-                tasks.append(('ctx', mode, lo, min(n, lo + step), 5 if tier == 'thorough' else 4))
+                tasks.append(('ctx', mode, lo, min(n, lo + step), 5 if tier == 'thorough' else 4,
+                              3 if tier == 'thorough' else 2))
         # part 1: stride through depth-2 shapes
         total = gens.depth2_count(d1['text'])
-        want = 24000 if tier == 'quick' else 400000
+        want = 16000 if tier == 'quick' else 400000
         chunk = 800
         for c in range(want // chunk):
             tasks.append(('d2', 'text' if c % 4 else 'bytes', rnd.randrange(total), rnd.randrange(1, 1 << 30) | 1, chunk))
@@ -117,12 +71,12 @@ class C01(Check):
         res = Result()
         kind = task[0]
         if kind == 'ctx':
-            _, mode, lo, hi, L = task
+            _, mode, lo, hi, L, nk = task
             d1 = gens.enumerate_depth1(mode)
             inputs = gens.all_inputs(gens.ALPHA, L, mode)
             exprs = []
             for x in d1[lo:hi]:
-                for k in gens.KS:
+                for k in gens.KS[:nk]:
                     exprs.extend(gens.contexts(x, k))
             self._run_packed(res, exprs, mode, inputs, 'ctx')
         elif kind == 'd2':
@@ -177,25 +131,7 @@ class C01(Check):
         prop()
 
     def replay(self, case):
-        g = peg.g_from_dict(case['g'])
-        desc = peg.render(g)
-        mod, err = sut.compile_grammar(desc)
-        t = case['text']
-        if mod is None:
-            return {'bucket': 'compile:%s' % (err[1] if len(err) > 1 else err[0]), 'got': list(err),
-                    'grammar': desc}
-        it = peg.Interp(g, t)
-        try:
-            r = it.run_rule(case['entry'])
-        except (peg.StepLimit, peg.RefError, KeyError, RecursionError):
-            return None
-        exp = sut.expected(r, t)
-        got = sut.run(mod, case['entry'], t)
-        if sut.agrees(exp, got):
-            return None
-        b = '%s->%s' % (exp[0], got[0] if got[0] != 'EXC' else 'EXC:' + got[1])
-        return {'bucket': b, 'expected': list(exp), 'got': list(got), 'grammar': desc,
-                'entry': case['entry'], 'input': repr(t)}
+        return diff.replay_case(case)
 
     def shrink(self, case, still_fails, deadline):
         def wf_and_fails(c):
@@ -214,68 +150,6 @@ class C01(Check):
     def selftest(self):
         from selftest import test_peg
         test_peg.run()
-
-
-def wellformed(g):
-    """Every repetition/Skip body non-nullable, every ref defined, no left recursion."""
-    rd = g.ruledict()
-    rn = peg.rule_nullability(g)
-    for r in g.rules:
-        for e in peg.rule_exprs(r):
-            for x in peg.walk(e):
-                if x[0] == 'rep' and peg.nullable(x[1], rn):
-                    return False
-                if x[0] == 'skip' and any(peg.nullable(c, rn) for c in x[1]):
-                    return False
-                if x[0] == 'sep' and (peg.nullable(x[1], rn) and peg.nullable(x[2], rn)):
-                    return False
-                if x[0] == 'sep' and peg.nullable(('seq', [x[1], x[2]]), rn):
-                    return False
-                if x[0] == 'ref' and x[1] not in rd:
-                    return False
-    # left recursion: first-position reachability
-    def first_refs(n):
-        k = n[0]
-        if k == 'ref':
-            return {n[1]}
-        if k in ('seq',):
-            out = set()
-            for c in n[1]:
-                out |= first_refs(c)
-                if not peg.nullable(c, rn):
-                    break
-            return out
-        if k in ('right', 'left'):
-            out = first_refs(n[1])
-            if peg.nullable(n[1], rn):
-                out |= first_refs(n[2])
-            return out
-        if k == 'sep':
-            out = first_refs(n[1])
-            if peg.nullable(n[1], rn):
-                out |= first_refs(n[2])
-            return out
-        out = set()
-        for c in peg.children(n):
-            out |= first_refs(c)
-        return out
-    fr = {}
-    for r in g.rules:
-        s = set()
-        for e in peg.rule_exprs(r):
-            s |= first_refs(e) if r[0] == 'rule' else first_refs(e)
-        fr[r[1]] = s
-    for name in fr:
-        seen, todo = set(), list(fr[name])
-        while todo:
-            x = todo.pop()
-            if x == name:
-                return False
-            if x in seen:
-                continue
-            seen.add(x)
-            todo.extend(fr.get(x, ()))
-    return True
 
 
 if __name__ == '__main__':
